@@ -80,7 +80,9 @@ Lemma refresh_side_pres evl g w e sd en mx w1 :
                e_ign en2 = e_ign en /\ maxchg en2 <= N.max (maxchg en) (now (w_st w2))) /\
   (forall x sd0, x <> e -> getx w2 x sd0 = getx w x sd0) /\ getx w2 e (negb sd) = getx w e (negb sd) /\
   now (w_st w) <= now (w_st w2) /\ x_tfile (getx w2 e sd) = x_tfile (getx w e sd) /\
-  length (ents (w_st w2)) = length (ents (w_st w)).
+  length (ents (w_st w2)) = length (ents (w_st w)) /\
+  (forall x, set_mem x (cset (w_st w)) = true -> set_mem x (cset (w_st w2)) = true) /\
+  (forall en2, nth_error (ents (w_st w2)) e = Some en2 -> s_oid (gs en2 sd) <> None -> ShapeS (gs en2 sd)).
 Proof.
   intros I He Hn Hmx H w2.
   destruct (uget_latest_spec evl g w e sd en I He Hn) as (w' & en' & m & H1 & W1 & P1 & Hot & Hfull & Hnone).
@@ -103,6 +105,13 @@ Proof.
   { unfold maxchg, chgv in *. destruct Pchg as [(G & _)|(t & G & _ & _ & Ht & _)].
     - destruct sd; simpl in *; rewrite Pother, G; lia.
     - destruct sd; simpl in *; rewrite Pother, G; simpl; lia. }
+  assert (Hshape: s_oid (gs en' sd) <> None -> ShapeS (gs en' sd)).
+  { intros Hoid. rewrite Poid in Hoid. destruct (s_oid (gs en sd)) as [o|] eqn:Eo; [|contradiction].
+    destruct (so_full _ _ _ _ _ _ (eo_side _ _ _ _ _ EO sd) o Eo) as (k0 & ob0 & -> & Hob0 & _).
+    destruct (Hfull k0 ob0 eq_refl Hob0) as (_ & _ & Fdead & Flive).
+    destruct (ProvModel.o_exists ob0) eqn:El.
+    - destruct (Flive eq_refl) as (X1 & _ & X3). left. split; [exact X1|rewrite X3; discriminate].
+    - destruct (Fdead eq_refl) as (X1 & _). right. rewrite X1. reflexivity. }
   assert (HI: InvP evl g w2).
   { apply (inv_master evl evl g g w w2 e en' I); rewrite ?Hst.
     - unfold w2. rewrite w_cfg_setx. exact Wcfg.
@@ -116,6 +125,14 @@ Proof.
     - intros x Hne. rewrite SB. destruct m; [destruct (Nat.eqb_spec x e); [contradiction|reflexivity]|reflexivity].
     - intros Hfl. rewrite SB. destruct (flagged_prog _ _ _ _ _ P1) as [(Hm & Hf)|Hm]; subst m; [|rewrite Nat.eqb_refl; reflexivity].
       apply (i_csc _ _ _ I e en Hn). rewrite <- Hf. exact Hfl.
+    - intros Hm. rewrite SB in Hm. destruct P1 as (Pother' & _ & Poid' & _ & _ & _ & [(Hc0 & Hm0)|(t & Hc0 & Ht0 & _ & _ & Hm0)]); subst m.
+      + assert (Hfe: flagged en' = flagged en) by (unfold flagged; destruct sd; simpl in *; rewrite Pother', Poid', Hc0; reflexivity).
+        rewrite Hfe. apply (i_cse _ _ _ I e en Hn Hm).
+      + apply (flagged_side en' sd); [rewrite Hc0; exact Ht0|]. rewrite Poid'.
+        destruct (s_oid (gs en sd)) as [o|] eqn:Eo.
+        * destruct (so_full _ _ _ _ _ _ (eo_side _ _ _ _ _ EO sd) o Eo) as (k0 & ob0 & -> & _). reflexivity.
+        * exfalso. destruct (Hnone eq_refl) as (_ & _ & Hcs0 & _).
+          destruct (so_empty _ _ _ _ _ _ (eo_side _ _ _ _ _ EO sd) Eo) as (Hf0 & _). rewrite Hcs0 in Hc0. rewrite Hc0 in Hf0. rewrite Ht0 in Hf0. discriminate.
     - exact SC.
     - rewrite SD. pose proof (i_clk _ _ _ I). lia.
     - exact Hmax'.
@@ -156,7 +173,11 @@ Proof.
           -- destruct (Fdead eq_refl) as (_ & Xh & Xp). rewrite Xh, Xp. split; [exact Q1|]. split; [exact Q4|exact Q6].
         * intros Hd Hcs. destruct (fo_mirror _ _ _ _ _ _ _ _ FO Hd Hcs) as (Ml & _). apply (Flive Ml).
       + intros Hno. destruct (Hnone Hno) as (X1 & X2 & X3 & X4). destruct (so_empty _ _ _ _ _ _ (eo_side _ _ _ _ _ EO sd) Hno) as (Y1 & Y2 & Y3 & _).
-        rewrite X1, X2, X3. auto. }
+        rewrite X1, X2, X3. auto.
+    - intros sd0 Hoid Hd Hp. destruct (Bool.bool_dec sd0 sd) as [->|Hne]; [apply Hshape; exact Hoid|].
+      assert (sd0 = negb sd) by (destruct sd0, sd; try reflexivity; contradiction). subst sd0.
+      rewrite Pother in *. rewrite Hgs in Hp. rewrite Pign in Hd.
+      apply (i_seen _ _ _ I e en (negb sd) He Hn Hoid Hd). pose proof (prog_maxchg _ _ _ _ _ P1). lia. }
   split; [exact HI|]. split.
   - intros en2 k ob Hen2 Ho2 Hob2. rewrite Hst, SA in Hen2. rewrite (nth_list_upd_eq _ _ _ _ Hn) in Hen2. injection Hen2 as <-.
     rewrite Poid in Ho2. rewrite Hobj in Hob2. right. apply (Hfull k ob Ho2 Hob2).
@@ -165,7 +186,10 @@ Proof.
       rewrite Hst. clear - Pother Pchg. unfold maxchg, chgv in *. destruct sd; cbn [gs negb] in *; rewrite ?Pother;
         (destruct Pchg as [(Pc & _)|(t & Pc & _ & _ & Pt & _)]; rewrite Pc; cbn [chgval]; lia).
     + split; [exact Hgo|]. split; [exact Hgs|]. split; [rewrite Hst; exact SC|]. split; [rewrite Hgsd; reflexivity|].
-      rewrite Hst, SA. apply length_list_upd.
+      split; [rewrite Hst, SA; apply length_list_upd|]. split.
+      * intros x Hm. rewrite Hst, SB. destruct (flagged_prog _ _ _ _ _ P1) as [(Hm0 & _)|Hm0]; subst m; [exact Hm|].
+        destruct (Nat.eqb x e); [reflexivity|exact Hm].
+      * intros en2 Hen2. rewrite Hst, SA in Hen2. rewrite (nth_list_upd_eq _ _ _ _ Hn) in Hen2. injection Hen2 as <-. exact Hshape.
 Qed.
 
 (* ------------------------------------------------------------------ get_latest *)
@@ -175,17 +199,18 @@ Lemma get_latest_loop_pres evl g e force mx : forall sides w w',
   InvP evl g w' /\ (forall sd0, prov_of w' sd0 = prov_of w sd0) /\
   (forall x sd0, x <> e -> getx w' x sd0 = getx w x sd0) /\ now (w_st w) <= now (w_st w') /\
   (exists en', nth_error (ents (w_st w')) e = Some en') /\ (forall sd0, x_tfile (getx w' e sd0) = x_tfile (getx w e sd0)) /\
-  length (ents (w_st w')) = length (ents (w_st w)).
+  length (ents (w_st w')) = length (ents (w_st w)) /\
+  (forall x, set_mem x (cset (w_st w)) = true -> set_mem x (cset (w_st w')) = true).
 Proof.
   induction sides as [|sd r IH]; intros w w' I He (en & Hn) Hmx H.
   - simpl in H. injection H as <-. split; [exact I|]. split; [auto|]. split; [auto|]. split; [apply N.le_refl|]. split; [eauto|auto].
   - simpl in H. destruct (force || N.ltb (x_lg (getx w e sd)) mx)%bool.
     + destruct (uget_latest w e sd) as [wa|c] eqn:Eu; [|discriminate]. cbn [rbind] in H.
-      destruct (refresh_side_pres evl g w e sd en mx wa I He Hn Hmx Eu) as (I2 & _ & Hp2 & (en2 & Hn2 & _) & Hg2 & Hgo2 & Hnow2 & Htf2 & Hlen2).
+      destruct (refresh_side_pres evl g w e sd en mx wa I He Hn Hmx Eu) as (I2 & _ & Hp2 & (en2 & Hn2 & _) & Hg2 & Hgo2 & Hnow2 & Htf2 & Hlen2 & Hmono2 & _).
       change (setx wa e sd (fun x => mkX mx (x_tname x) (x_tfile x))) with (setx wa e sd (set_lg mx)) in H.
-      destruct (IH _ _ I2 He (ex_intro _ en2 Hn2) ltac:(lia) H) as (I3 & Hp3 & Hg3 & Hnow3 & Hen3 & Htf3 & Hlen3).
+      destruct (IH _ _ I2 He (ex_intro _ en2 Hn2) ltac:(lia) H) as (I3 & Hp3 & Hg3 & Hnow3 & Hen3 & Htf3 & Hlen3 & Hmono3).
       split; [exact I3|]. split; [intros; rewrite Hp3; apply Hp2|]. split; [intros; rewrite Hg3 by assumption; apply Hg2; assumption|]. split; [lia|]. split; [exact Hen3|].
-      split; [|congruence].
+      split; [|split; [congruence|intros x Hm; apply Hmono3; apply Hmono2; exact Hm]].
       intros sd0. rewrite Htf3. destruct (Bool.bool_dec sd0 sd) as [->|Hne]; [exact Htf2|].
       assert (sd0 = negb sd) by (destruct sd0, sd; try reflexivity; contradiction). subst sd0. rewrite Hgo2. reflexivity.
     + cbn [rbind] in H. apply (IH _ _ I He (ex_intro _ en Hn) Hmx H).
@@ -198,7 +223,8 @@ Theorem get_latest_pres evl g w e force sides w' :
   InvP evl g w -> (2 <= e)%nat -> get_latest w e force sides = ROk w' ->
   InvP evl g w' /\ (forall sd0, prov_of w' sd0 = prov_of w sd0) /\
   (forall x sd0, x <> e -> getx w' x sd0 = getx w x sd0) /\ now (w_st w) <= now (w_st w') /\
-  (forall sd0, x_tfile (getx w' e sd0) = x_tfile (getx w e sd0)) /\ length (ents (w_st w')) = length (ents (w_st w)).
+  (forall sd0, x_tfile (getx w' e sd0) = x_tfile (getx w e sd0)) /\ length (ents (w_st w')) = length (ents (w_st w)) /\
+  (forall x, set_mem x (cset (w_st w)) = true -> set_mem x (cset (w_st w')) = true).
 Proof.
   intros I He H. unfold get_latest, get_e, lift, get_ent in H.
   destruct (nth_error (ents (w_st w)) e) as [en|] eqn:Hn; [|discriminate]. cbn [rbind] in H.
@@ -206,7 +232,7 @@ Proof.
   assert (Hmx: mx <= now (w_st w) + 1).
   { destruct (i_clke _ _ _ I e en Hn) as (Hm & _). unfold mx. clear H mx. unfold maxchg, chgv in Hm.
     induction sides as [|sd r IHs]; simpl; [lia|]. destruct sd; simpl; lia. }
-  destruct (get_latest_loop_pres evl g e force mx sides w w' I He (ex_intro _ en Hn) Hmx H) as (A & B & C & D & _ & F & G). auto 10.
+  destruct (get_latest_loop_pres evl g e force mx sides w w' I He (ex_intro _ en Hn) Hmx H) as (A & B & C & D & _ & F & G & M). auto 12.
 Qed.
 
 (* the refresh of both sides before an entry is synchronised *)
@@ -217,7 +243,8 @@ Theorem get_latest_both evl g w e w' :
   (forall x sd0, x <> e -> getx w' x sd0 = getx w x sd0) /\
   (exists en en', nth_error (ents (w_st w)) e = Some en /\ nth_error (ents (w_st w')) e = Some en' /\ e_ign en' = e_ign en /\
                   maxchg en' <= N.max (maxchg en) (now (w_st w'))) /\
-  now (w_st w) <= now (w_st w').
+  now (w_st w) <= now (w_st w') /\
+  (forall en' sd, nth_error (ents (w_st w')) e = Some en' -> s_oid (gs en' sd) <> None -> ShapeS (gs en' sd)).
 Proof.
   intros I He Hnd H. unfold get_latest, get_e, lift, get_ent in H.
   destruct (nth_error (ents (w_st w)) e) as [en|] eqn:Hn; [|discriminate]. cbn [rbind] in H.
@@ -239,29 +266,37 @@ Proof.
               InvP evl g w1 /\ ReadyS evl w1 e false /\ (forall sd0, prov_of w1 sd0 = prov_of w sd0) /\
               nth_error (ents (w_st w1)) e = Some en1 /\ gs en1 true = gs en true /\ getx w1 e true = getx w e true /\
               (forall x sd0, x <> e -> getx w1 x sd0 = getx w x sd0) /\ now (w_st w) <= now (w_st w1) /\
-              e_ign en1 = e_ign en /\ maxchg en1 <= N.max (maxchg en) (now (w_st w1))).
+              e_ign en1 = e_ign en /\ maxchg en1 <= N.max (maxchg en) (now (w_st w1)) /\
+              (s_oid (gs en1 false) <> None -> ShapeS (gs en1 false))).
   { destruct (N.ltb (x_lg (getx w e false)) (maxchg en)) eqn:El.
     - destruct (uget_latest w e false) as [wa|c] eqn:Eu; [|discriminate]. cbn [rbind].
-      destruct (refresh_side_pres evl g w e false en (maxchg en) wa I He Hn Hmx Eu) as (I2 & R2 & Hp2 & (en2 & Hn2 & Ho2 & _ & _ & Hi2 & Hm2) & Hg2 & Hgs2 & Hnow2 & _).
-      eexists. exists en2. split; [reflexivity|]. repeat (split; [assumption|]). exact Hm2.
+      destruct (refresh_side_pres evl g w e false en (maxchg en) wa I He Hn Hmx Eu) as (I2 & R2 & Hp2 & (en2 & Hn2 & Ho2 & _ & _ & Hi2 & Hm2) & Hg2 & Hgs2 & Hnow2 & _ & _ & _ & Hsh2).
+      eexists. exists en2. split; [reflexivity|]. repeat (split; [assumption|]). apply (Hsh2 en2 Hn2).
     - exists w, en. split; [reflexivity|]. split; [exact I|]. split.
       + intros en0 k ob Hen0 Ho Hob. assert (en0 = en) by congruence. subst en0. apply (HK false El k ob Ho Hob).
-      + repeat split; auto; try apply N.le_refl; lia. }
-  destruct H1 as (w1 & en1 & E1 & I1 & R1 & Hp1 & Hn1 & Ho1 & Hg1 & Hgx1 & Hnow1 & Hi1 & Hm1). rewrite E1 in H. cbn [rbind] in H.
+      + repeat (split; [first [assumption|reflexivity|apply N.le_refl|lia|auto]|]).
+        intros Hoid. apply (i_seen _ _ _ I e en false He Hn Hoid Hnd). apply N.ltb_ge in El. exact El. }
+  destruct H1 as (w1 & en1 & E1 & I1 & R1 & Hp1 & Hn1 & Ho1 & Hg1 & Hgx1 & Hnow1 & Hi1 & Hm1 & Hsh1). rewrite E1 in H. cbn [rbind] in H.
   rewrite Hg1 in H.
   (* side REMOTE *)
   destruct (N.ltb (x_lg (getx w e true)) (maxchg en)) eqn:Er.
   - destruct (uget_latest w1 e true) as [wa|c] eqn:Eu; [|discriminate]. cbn [rbind] in H.
     change (setx wa e true (fun x => mkX (maxchg en) (x_tname x) (x_tfile x))) with (setx wa e true (set_lg (maxchg en))) in H.
     injection H as <-.
-    destruct (refresh_side_pres evl g w1 e true en1 (maxchg en) wa I1 He Hn1 ltac:(lia) Eu) as (I2 & R2 & Hp2 & (en2 & Hn2 & Ho2 & _ & _ & Hi2 & Hm2) & Hg2 & _ & Hnow2 & _).
+    destruct (refresh_side_pres evl g w1 e true en1 (maxchg en) wa I1 He Hn1 ltac:(lia) Eu) as (I2 & R2 & Hp2 & (en2 & Hn2 & Ho2 & _ & _ & Hi2 & Hm2) & Hg2 & _ & Hnow2 & _ & _ & _ & Hsh2).
     split; [exact I2|]. split.
     + intros en0 k ob Hen0 Ho Hob. assert (en0 = en2) by congruence. subst en0. cbn [negb] in Ho2. rewrite Ho2 in *.
       unfold obj_at in Hob. rewrite Hp2 in Hob. apply (R1 en1 k ob Hn1 Ho Hob).
     + split; [exact R2|]. split; [intros; rewrite Hp2; apply Hp1|]. split; [intros x sd0 Hne; rewrite Hg2 by exact Hne; apply Hgx1; exact Hne|].
-      split; [|lia]. exists en, en2. split; [reflexivity|]. split; [exact Hn2|]. split; [congruence|lia].
+      split; [|split; [lia|]].
+      * exists en, en2. split; [reflexivity|]. split; [exact Hn2|]. split; [congruence|lia].
+      * intros en0 sd0 Hen0 Hoid. assert (en0 = en2) by congruence. subst en0. destruct sd0; [apply (Hsh2 en2 Hn2 Hoid)|].
+        cbn [negb] in Ho2. rewrite Ho2 in *. apply Hsh1. exact Hoid.
   - injection H as <-. split; [exact I1|]. split; [exact R1|]. split.
     + intros en0 k ob Hen0 Ho Hob. assert (en0 = en1) by congruence. subst en0. rewrite Ho1 in *.
       unfold obj_at in Hob. rewrite Hp1 in Hob. apply (HK true Er k ob Ho Hob).
-    + split; [exact Hp1|]. split; [exact Hgx1|]. split; [|exact Hnow1]. exists en, en1. split; [reflexivity|]. split; [exact Hn1|]. split; [exact Hi1|exact Hm1].
+    + split; [exact Hp1|]. split; [exact Hgx1|]. split; [|split; [exact Hnow1|]].
+      * exists en, en1. split; [reflexivity|]. split; [exact Hn1|]. split; [exact Hi1|exact Hm1].
+      * intros en0 sd0 Hen0 Hoid. assert (en0 = en1) by congruence. subst en0. destruct sd0; [|apply Hsh1; exact Hoid].
+        rewrite Ho1 in *. apply (i_seen _ _ _ I e en true He Hn Hoid Hnd). apply N.ltb_ge in Er. exact Er.
 Qed.
